@@ -2,7 +2,7 @@
 # usage: findings/run.sh <file_test.go> <TestName> [repo]  — runs one scenario replay against the real code via -overlay
 f=$(readlink -f "$1"); t="$2"; repo="${3:-/repo}"
 pkg=.
-case "$f" in *commit_*) pkg=./commit;; esac
+case "$(basename "$f")" in commit_*) pkg=./commit;; esac
 tmp=$(mktemp -d); trap 'rm -rf "$tmp"' EXIT
 dst="$repo/zz_verif_finding_test.go"; [ "$pkg" = "./commit" ] && dst="$repo/commit/zz_verif_finding_test.go"
 printf '{"Replace": {"%s": "%s"}}' "$dst" "$f" > "$tmp/ov.json"
